@@ -35,22 +35,24 @@ Theorem c05_refuted_epoch_bump :
 Proof. exact refuted_epoch_bump. Qed.
 Print Assumptions c05_refuted_epoch_bump.
 
-(* (v) per-partition answers only, NO error event at all (the epoch never moves), one NotLeaderForPartition answer:
-   a fresh message parked by the partition worker during the retry is forwarded by flushRetryBuffers without a
-   sequence number; message 3 is reported successful and is not in the log *)
-Theorem c05_refuted_backlog :
+(* (v) found by this check, repaired in /repo 271dd24: flushRetryBuffers forwarded a fresh message parked during a
+   retry without a sequence number (reported successful, not in the log, after ONE NotLeaderForPartition answer).
+   On that schedule the repaired code stamps message 3 as (epoch 0, sequence 2): appended once, history consistent. *)
+Theorem c05_backlog_repaired :
   let y := yrun wcfg2 sched_backlog in
   idem_cfg wcfg2 = true /\ forallb sane_choice sched_backlog = true /\ forallb conn_free_choice sched_backlog = true /\
-  no_error_events (y_st y) = true /\ g_epoch (y_st y) = 0 /\
-  (forall i, (subm_count i (y_st y) <= 1)%nat) /\ g_panic (y_st y) = None /\
-  appended 3 y = 0%nat /\ In 3 (success_ids (y_st y)) /\ g_inflight (y_st y) = 0.
-Proof. exact refuted_backlog. Qed.
-Print Assumptions c05_refuted_backlog.
+  no_error_events (y_st y) = true /\ g_panic (y_st y) = None /\ g_inflight (y_st y) = 0 /\
+  consistent (hist_claims (y_hist y)) /\
+  appended 1 y = 1%nat /\ appended 2 y = 1%nat /\ appended 3 y = 1%nat /\ success_ids (y_st y) = [1; 2; 3] /\
+  map rl_batch (y_hist y) = [mkBatch (0, 0) 0 0 [1]; mkBatch (0, 0) 0 0 [1]; mkBatch (0, 0) 0 1 [2]; mkBatch (0, 0) 0 2 [3]].
+Proof. exact backlog_repaired. Qed.
+Print Assumptions c05_backlog_repaired.
 
 (* hence: "no message appended twice and every success in the log exactly once", for all idempotent configurations,
-   schedules and fault scripts, does not hold -- not even without any connection-level failure, and not even when in addition no message fails *)
-Theorem c05_no_duplicate_refuted : ~ no_duplicate_full /\ ~ no_duplicate_conn_free /\ ~ no_duplicate_quiet.
-Proof. exact (conj not_no_duplicate_full (conj not_no_duplicate_conn_free not_no_duplicate_quiet)). Qed.
+   schedules and fault scripts, does not hold -- not even without any connection-level failure.  (Model.no_duplicate_quiet, the restriction to
+   histories in which moreover no message fails, was refuted by (v) before the repair and is open now.) *)
+Theorem c05_no_duplicate_refuted : ~ no_duplicate_full /\ ~ no_duplicate_conn_free.
+Proof. exact (conj not_no_duplicate_full not_no_duplicate_conn_free). Qed.
 Print Assumptions c05_no_duplicate_refuted.
 
 (* ------------------------------------------------------------------ what holds for all schedules and fault scripts *)
@@ -91,7 +93,7 @@ Print Assumptions c05_success_link.
    the logs twice, and every message reported successful is there exactly once.
    The excluded class is exactly: some message was sent under two different stamps, or two messages under one
    (c05_refuted_conn_drop: message 2 as (0,0) and (1,0); c05_refuted_epoch_bump: messages 2 and 3 both as (1,0);
-   c05_refuted_backlog: messages 1 and 3 both as (0,0)). *)
+   before 271dd24 also the unsequenced backlog: messages 1 and 3 both as (0,0)). *)
 Theorem c05_no_duplicate_partial : forall c sched,
   let y := yrun c sched in
   forallb sane_choice sched = true -> consistent (hist_claims (y_hist y)) ->
